@@ -3,7 +3,9 @@ package sim
 import (
 	"errors"
 	"fmt"
+	"math"
 	"sort"
+	"strconv"
 
 	simdjson "github.com/minio/simdjson-go"
 )
@@ -182,7 +184,176 @@ func (w *walkCtx) advValue(it *simdjson.Iter, t simdjson.Type) (*MV, error) {
 		}
 		return m, nil
 	}
-	return scalarOf(it, t)
+	v, err := scalarOf(it, t)
+	if err == nil {
+		if cerr := crossReads(it, t, v); cerr != nil {
+			return nil, cerr
+		}
+	}
+	return v, err
+}
+
+// crossReads calls the typed accessors that do NOT belong to the value's own type on a scalar the iterator stands on and
+// holds them to their documentation: Float/FloatFlags convert integers ("Integers are automatically converted to
+// float"), Int/Uint convert numbers that are in range ("Integers and floats within range are automatically converted",
+// "Positive integers and floats ..."), everything else is an error; StringCvt gives the text of the value; a read never
+// changes what the own-type accessor returns. Floats exactly at +-2^63 / 2^64 are left unjudged (the documentation's
+// "within range" does not say which side the edge is on). mv is the value the own-type accessor has just returned.
+func crossReads(it *simdjson.Iter, t simdjson.Type, mv *MV) error {
+	const two63, two64 = 9223372036854775808.0, 18446744073709551616.0
+	bad := func(api string, got interface{}, err error, want string) error {
+		return fmt.Errorf("typed read %s on a value of type %s differs from its documentation || value %s: got (%v, %v), documented: %s", api, t, mv.short(), got, err, want)
+	}
+	isNum := t == simdjson.TypeInt || t == simdjson.TypeUint || t == simdjson.TypeFloat
+	// Float / FloatFlags
+	f, ferr := it.Float()
+	f2, fl2, ferr2 := it.FloatFlags()
+	switch t {
+	case simdjson.TypeInt:
+		if ferr != nil || f != float64(mv.I) {
+			return bad("Float()", f, ferr, "the integer converted to float")
+		}
+		if ferr2 != nil || f2 != float64(mv.I) || fl2 != 0 {
+			return bad("FloatFlags()", f2, ferr2, "the integer converted to float, no flags")
+		}
+	case simdjson.TypeUint:
+		if ferr != nil || f != float64(mv.U) {
+			return bad("Float()", f, ferr, "the integer converted to float")
+		}
+		if ferr2 != nil || f2 != float64(mv.U) || fl2 != 0 {
+			return bad("FloatFlags()", f2, ferr2, "the integer converted to float, no flags")
+		}
+	case simdjson.TypeFloat:
+		if ferr != nil || math.Float64bits(f) != math.Float64bits(mv.F) {
+			return bad("Float()", f, ferr, "the float itself")
+		}
+	default:
+		if ferr == nil {
+			return bad("Float()", f, ferr, "an error (not a number)")
+		}
+		if ferr2 == nil {
+			return bad("FloatFlags()", f2, ferr2, "an error (not a number)")
+		}
+	}
+	// Int
+	i, ierr := it.Int()
+	switch t {
+	case simdjson.TypeUint:
+		if mv.U <= math.MaxInt64 {
+			if ierr != nil || i != int64(mv.U) {
+				return bad("Int()", i, ierr, "the value (it is in range)")
+			}
+		} else if ierr == nil {
+			return bad("Int()", i, ierr, "an error (above the int64 range)")
+		}
+	case simdjson.TypeFloat:
+		switch {
+		case mv.F != mv.F: // NaN: unjudged
+		case mv.F > -two63 && mv.F < two63:
+			if ierr != nil || i != int64(mv.F) {
+				return bad("Int()", i, ierr, "the float converted to int64 (it is in range)")
+			}
+		case mv.F > two63 || mv.F < -two63:
+			if ierr == nil {
+				return bad("Int()", i, ierr, "an error (outside the int64 range)")
+			}
+		}
+	case simdjson.TypeInt:
+	default:
+		if ierr == nil {
+			return bad("Int()", i, ierr, "an error (not a number)")
+		}
+	}
+	// Uint
+	u, uerr := it.Uint()
+	switch t {
+	case simdjson.TypeInt:
+		if mv.I >= 0 {
+			if uerr != nil || u != uint64(mv.I) {
+				return bad("Uint()", u, uerr, "the value (it is not negative)")
+			}
+		} else if uerr == nil {
+			return bad("Uint()", u, uerr, "an error (negative)")
+		}
+	case simdjson.TypeFloat:
+		switch {
+		case mv.F != mv.F:
+		case mv.F >= 0 && mv.F < two64:
+			if uerr != nil || u != uint64(mv.F) {
+				return bad("Uint()", u, uerr, "the float converted to uint64 (it is in range)")
+			}
+		case mv.F > two64 || mv.F <= -1:
+			if uerr == nil {
+				return bad("Uint()", u, uerr, "an error (outside the uint64 range)")
+			}
+		}
+	case simdjson.TypeUint:
+	default:
+		if uerr == nil {
+			return bad("Uint()", u, uerr, "an error (not a number)")
+		}
+	}
+	// Bool / String / StringBytes on values of another type
+	if t != simdjson.TypeBool {
+		if b, err := it.Bool(); err == nil {
+			return bad("Bool()", b, err, "an error (not a bool)")
+		}
+	}
+	if t != simdjson.TypeString {
+		if s, err := it.String(); err == nil {
+			return bad("String()", s, err, "an error (not a string)")
+		}
+		if s, err := it.StringBytes(); err == nil {
+			return bad("StringBytes()", s, err, "an error (not a string)")
+		}
+	} else {
+		s, err := it.String()
+		if err != nil || s != string(mv.S) {
+			return bad("String()", s, err, "the same bytes StringBytes returns")
+		}
+	}
+	// StringCvt: "a string representation of the value"
+	cv, cerr := it.StringCvt()
+	switch t {
+	case simdjson.TypeNull:
+		if cerr != nil || cv != "null" {
+			return bad("StringCvt()", cv, cerr, `"null"`)
+		}
+	case simdjson.TypeBool:
+		if cerr != nil || cv != strconv.FormatBool(mv.B) {
+			return bad("StringCvt()", cv, cerr, "true/false")
+		}
+	case simdjson.TypeInt:
+		if cerr != nil || cv != strconv.FormatInt(mv.I, 10) {
+			return bad("StringCvt()", cv, cerr, "the decimal digits")
+		}
+	case simdjson.TypeUint:
+		if cerr != nil || cv != strconv.FormatUint(mv.U, 10) {
+			return bad("StringCvt()", cv, cerr, "the decimal digits")
+		}
+	case simdjson.TypeString:
+		if cerr != nil || cv != string(mv.S) {
+			return bad("StringCvt()", cv, cerr, "the string itself")
+		}
+	case simdjson.TypeFloat:
+		if mv.F == mv.F && !math.IsInf(mv.F, 0) {
+			back, perr := strconv.ParseFloat(cv, 64)
+			if cerr != nil || perr != nil || back != mv.F {
+				return bad("StringCvt()", cv, cerr, "a number text that converts back to the same float")
+			}
+		}
+	}
+	// the reads above must not have moved or changed the iterator: the own-type accessor still gives the same value
+	again, err := scalarOf(it, t)
+	if err != nil {
+		return fmt.Errorf("typed reads changed the iterator: %s %s can no longer be read: %v", t, mv.short(), err)
+	}
+	if isNum || t == simdjson.TypeBool || t == simdjson.TypeString {
+		if d := Diff(mv, again, EqExact); d != "" {
+			return fmt.Errorf("typed reads changed the iterator: %s", d)
+		}
+	}
+	return nil
 }
 
 // WalkAdvance exposes the document through Advance, Root, Array.Iter and NextElementBytes.
@@ -479,9 +650,98 @@ func (w *walkCtx) feValue(it *simdjson.Iter, t simdjson.Type) (*MV, error) {
 		if err != nil {
 			return nil, err
 		}
+		if ferr == nil {
+			if err := w.feFiltered(obj, m); err != nil {
+				return nil, err
+			}
+		}
 		return m, ferr
 	}
 	return scalarOf(it, t)
+}
+
+// feFiltered: Object.ForEach with a key filter ("A key filter can be provided for optional filtering") visits exactly the
+// members whose names are in the filter, in order, each with its own value. Judged on objects whose names are distinct
+// (with duplicates the early exit after len(filter) callbacks makes the documented behaviour debatable); m is what the
+// unfiltered ForEach has just exposed for the same object.
+func (w *walkCtx) feFiltered(obj *simdjson.Object, m *MV) error {
+	n := len(m.Keys)
+	if n == 0 || n > 48 {
+		return nil
+	}
+	seen := make(map[string]struct{}, n)
+	for _, k := range m.Keys {
+		if _, dup := seen[string(k)]; dup {
+			return nil
+		}
+		seen[string(k)] = struct{}{}
+	}
+	filters := []map[string]struct{}{{string(m.Keys[n-1]): {}}}
+	if n >= 2 {
+		f := map[string]struct{}{"\x00no such name\x00": {}}
+		for i := 1; i < n; i += 2 {
+			f[string(m.Keys[i])] = struct{}{}
+		}
+		filters = append(filters, f, map[string]struct{}{string(m.Keys[0]): {}, string(m.Keys[n-1]): {}})
+	}
+	for _, f := range filters {
+		var want []int
+		for i, k := range m.Keys {
+			if _, ok := f[string(k)]; ok {
+				want = append(want, i)
+			}
+		}
+		var names []string
+		for k := range f {
+			names = append(names, strconv.Quote(k))
+		}
+		sort.Strings(names)
+		k := 0
+		var problem error
+		err := obj.ForEach(func(key []byte, e simdjson.Iter) {
+			if problem != nil {
+				return
+			}
+			if k >= len(want) {
+				problem = fmt.Errorf("Object.ForEach with a key filter: more callbacks than selected members || filter %v: extra callback for %s (%v); the object has %d members with these names", names, shortBytes(key), e.Type(), len(want))
+				return
+			}
+			idx := want[k]
+			k++
+			if string(key) != string(m.Keys[idx]) {
+				problem = fmt.Errorf("Object.ForEach with a key filter: callback for a member that is not selected || filter %v: callback #%d has name %s, expected member #%d %s", names, k-1, shortBytes(key), idx, shortBytes(m.Keys[idx]))
+				return
+			}
+			exp := m.Vals[idx]
+			switch exp.K {
+			case KArray:
+				if e.Type() != simdjson.TypeArray {
+					problem = fmt.Errorf("Object.ForEach with a key filter: callback value is not the member's value || filter %v: member %s is an array but the callback got %v", names, shortBytes(key), e.Type())
+				}
+			case KObject:
+				if e.Type() != simdjson.TypeObject {
+					problem = fmt.Errorf("Object.ForEach with a key filter: callback value is not the member's value || filter %v: member %s is an object but the callback got %v", names, shortBytes(key), e.Type())
+				}
+			default:
+				got, err := scalarOf(&e, e.Type())
+				if err != nil {
+					problem = fmt.Errorf("Object.ForEach with a key filter: callback value is not the member's value || filter %v: member %s (%s): callback value unreadable (%v): %v", names, shortBytes(key), exp.short(), e.Type(), err)
+				} else if d := Diff(exp, got, EqExact); d != "" {
+					problem = fmt.Errorf("Object.ForEach with a key filter: callback value is not the member's value || filter %v: member %s: %s", names, shortBytes(key), d)
+				}
+			}
+		}, f)
+		if problem != nil {
+			return problem
+		}
+		if err != nil {
+			return fmt.Errorf("Object.ForEach with a key filter: error || filter %v: %v", names, err)
+		}
+		if k != len(want) {
+			return fmt.Errorf("Object.ForEach with a key filter: fewer callbacks than selected members || filter %v: %d callbacks, the object has %d members with these names", names, k, len(want))
+		}
+	}
+	return nil
 }
 
 // WalkForEach exposes the document through the ForEach family.
